@@ -349,6 +349,10 @@ func buildPool(m *vs.Stream, freeze bool) (*pool, error) {
 			}
 		}
 	}
+	// a complete geometry followed by a stray token (an error path of its own)
+	if len(p.geoms) > 0 {
+		addBuf("wkt", []byte(p.geoms[0].AsText()+[]string{" )", " x", " POINT(1 2)", ","}[m.Intn(4, "buf/trailing")]))
+	}
 	for i := 0; i < 2; i++ {
 		addBuf("geojson", []byte(gen.GrammarGeoJSON(m, 2)))
 		addBuf("wkt", []byte(gen.GrammarWKT(m, 2)))
